@@ -61,6 +61,13 @@ def _undefined_set(object, name, value):
     _undefined_get(object, name)
 
 
+def _validate_anything(object, name, value):
+    """ Validator for compound members that have no validate method: accepts
+    any value and returns it unaltered.
+    """
+    return value
+
+
 class TraitCoerceType(TraitHandler):
     """Ensures that a value assigned to a trait attribute is of a specified
     Python type, or can be coerced to the specified type.
@@ -655,7 +662,12 @@ class TraitCompound(TraitHandler):
                     # Else just add the entire validator to the list:
                     fast_validates.append(fv)
             else:
-                slow_validates.append(handler.validate)
+                validate = handler.validate
+                if validate is None:
+                    # A member without a validate method (for example Any)
+                    # accepts every value unchanged.
+                    validate = _validate_anything
+                slow_validates.append(validate)
 
             post_setattr = getattr(handler, "post_setattr", None)
             if post_setattr is not None:
